@@ -172,6 +172,140 @@ def expandAll : D → List (Op D S F) → List (TOp D S F)
   | cur, .initTrial d :: ops => expand cur (.initTrial d) ++ expandAll d ops
   | cur, op :: ops => expand cur op ++ expandAll cur ops
 
+/-! ### the composite likelihood of several datasets (`MultiDatasetTCLLHRatio`)
+
+Dataset 0 is the modelled object graph; the further datasets are leaves (their PDF ratios keep no state
+between calls; the only thing they remember is their own `_cache_nsgrad_i`).  State that matters:
+what `DatasetSignalWeightFactorsService.get_weights()` hands out — recalculated by *every* evaluate,
+before anything can fail — and the per-dataset cached ns-gradients. -/
+
+structure Comp (D S F : Type) where
+  T : Top D S F
+  /-- `f_j` of all datasets, dataset 0 first: a pure function of source hypothesis and parameter point -/
+  fj : S → Query F → List F
+  /-- the further datasets at a parameter point: `R_i` of their selected events -/
+  others : D → S → Query F → List (List F)
+  /-- their event counts `(N_j, N'_j)`, read from their trial data managers at call time -/
+  counts : D → List (Nat × Nat)
+
+structure CSt (D S F : Type) where
+  t : TSt D S F
+  /-- the weights the service hands out (`none`: never calculated) -/
+  fsvc : Option (List F)
+  /-- `_cache_nsgrad_i` of the further datasets -/
+  nsg2 : Option (List (List F))
+
+inductive COp (D S F : Type) where
+  | low (op : TOp D S F)       -- tdmInit / llhInit / changeShg (on all datasets), single-dataset grad2
+  | cevaluate (q : Query F)    -- MultiDatasetTCLLHRatio.evaluate
+  | cgrad2 (ns : F)            -- MultiDatasetTCLLHRatio.calculate_ns_grad2
+
+inductive CRes (F : Type) where
+  | low (r : TRes F)
+  | vals (llh gradNs : F)
+  | evalError
+  | grad2 (x : F)
+  | refused
+
+def cfresh (d : D) (s : S) : CSt D S F := ⟨tfresh d s, none, none⟩
+
+/-- the query dataset 0 is evaluated with: `llhratio_fitparam_values[ns_pidx] = ns * f[0]` -/
+def q0 (q : Query F) (f0 : F) : Query F := { q with ns := q.ns * f0 }
+
+/-- one further dataset at effective `ns_j`: log-lambda, ns-gradient, cached per-event ns-gradients -/
+def otherEval (opa : F) (nsj : F) (cnt : Nat × Nat) (ri : List F) : F × F × List F :=
+  let xs := ri.map (LLH.xOfRatio cnt.1)
+  (LLH.llr opa cnt.1 nsj xs, Grad.gradNs opa cnt.1 nsj xs, xs.map (Grad.nsGradI opa nsj))
+
+/-- the further datasets of a composite evaluation -/
+def othersEval (C : Comp D S F) (d : D) (s : S) (q : Query F) (frest : List F) : List (F × F × List F) :=
+  List.zipWith (fun (fc : F × (Nat × Nat)) ri => otherEval C.T.opa (q.ns * fc.1) fc.2 ri)
+    (List.zip frest (C.counts d)) (C.others d s q)
+
+/-- `log_lambda = 0; log_lambda += log_lambda_j` and `grads[ns] += grads_j[ns] * f[j]` -/
+def combine (llh0 g0 f0 : F) (frest : List F) (oth : List (F × F × List F)) : F × F :=
+  (Weights.sumF (llh0 :: oth.map (·.1)),
+   Weights.sumF ((g0 * f0) :: List.zipWith (fun (o : F × F × List F) f => o.2.1 * f) oth frest))
+
+/-- `np.sum(nsgrad2j * f**2)` with `nsgrad2j[j] = llhratio_j.calculate_ns_grad2(ns * f[j])` -/
+def cgrad2Of (C : Comp D S F) (d : D) (s : S) (f0 : F) (frest : List F) (g0 : List F)
+    (gs : List (List F)) (ns : F) : F :=
+  let first := grad2Of C.T d s g0 (ns * f0) * (f0 * f0)
+  let rest := List.zipWith (fun (fc : F × (Nat × Nat)) g =>
+      (-Weights.sumF (g.map (fun x => x * x)) - Grad.bkgGrad2 fc.2.1 fc.2.2 (ns * fc.1)) * (fc.1 * fc.1))
+    (List.zip frest (C.counts d)) gs
+  Weights.sumF (first :: rest)
+
+def cstep (C : Comp D S F) (v : Variant) (hit : F → F → Bool) (cfg : Cfg) (c : CSt D S F) :
+    COp D S F → CSt D S F × CRes F
+  | .low op =>
+    let r := tstep C.T v hit cfg c.t op
+    ({ c with t := r.1,
+              nsg2 := match op with
+                | .llhInit => if v.resetNsgrad then none else c.nsg2
+                | _ => c.nsg2 }, .low r.2)
+  | .cevaluate q =>
+    match C.fj c.t.base.src q with
+    | [] => (c, .evalError)
+    | f0 :: frest =>
+      let r := tstep C.T v hit cfg c.t (.evaluate (q0 q f0))
+      match r.2 with
+      | .vals o =>
+        let oth := othersEval C c.t.base.data c.t.base.src q frest
+        let tot := combine o.llh o.gradNs f0 frest oth
+        (⟨r.1, some (f0 :: frest), some (oth.map (·.2.2))⟩, .vals tot.1 tot.2)
+      | _ => (⟨r.1, some (f0 :: frest), c.nsg2⟩, .evalError)   -- the services were recalculated before the failure
+  | .cgrad2 ns =>
+    (c, match c.fsvc, c.t.nsgrad, c.nsg2 with
+        | some (f0 :: frest), some g0, some gs =>
+          .grad2 (cgrad2Of C c.t.base.data c.t.base.src f0 frest g0 gs ns)
+        | _, _, _ => .refused)
+
+def crun (C : Comp D S F) (v : Variant) (hit : F → F → Bool) (cfg : Cfg) :
+    CSt D S F → List (COp D S F) → CSt D S F × List (CRes F)
+  | c, [] => (c, [])
+  | c, op :: ops =>
+    let r := cstep C v hit cfg c op
+    let rest := crun C v hit cfg r.1 ops
+    (rest.1, r.2 :: rest.2)
+
+/-- the stateless composite evaluator: value, ns-gradient, and what the datasets would cache -/
+def compPure (C : Comp D S F) (parabola : Bool) (d : D) (s : S) (q : Query F) :
+    Option ((F × F) × (F × List F) × List F × List (List F)) :=
+  match C.fj s q with
+  | [] => none
+  | f0 :: frest =>
+    match topPure C.T parabola d s (q0 q f0) with
+    | some p =>
+      let oth := othersEval C d s q frest
+      some (combine p.1.llh p.1.gradNs f0 frest oth, (f0, frest), p.2.nsgrad, oth.map (·.2.2))
+    | none => none
+
+/-- fused composite operations -/
+inductive FOp (D S F : Type) where
+  | initTrial (d : D)
+  | changeSource (s : S)
+  | cevaluate (q : Query F)
+
+/-- … as sequences of the real calls -/
+def cexpandAll : D → List (FOp D S F) → List (COp D S F)
+  | _, [] => []
+  | _, .initTrial d :: ops => .low (.tdmInit d) :: .low .llhInit :: cexpandAll d ops
+  | cur, .changeSource s :: ops =>
+    .low (.changeShg s) :: .low (.tdmInit cur) :: .low .llhInit :: cexpandAll cur ops
+  | cur, .cevaluate q :: ops => .cevaluate q :: cexpandAll cur ops
+
+/-- the history dataset 0 sees: every composite evaluate becomes an evaluate at `ns·f₀(s, q)` with the
+source `s` that is current at that moment -/
+def lower (C : Comp D S F) : S → List (FOp D S F) → List (Op D S F)
+  | _, [] => []
+  | s, .initTrial d :: ops => .initTrial d :: lower C s ops
+  | _, .changeSource s :: ops => .changeSource s :: lower C s ops
+  | s, .cevaluate q :: ops =>
+    (match C.fj s q with
+     | [] => []
+     | f0 :: _ => [.evaluate (q0 q f0)]) ++ lower C s ops
+
 end
 
 end CacheTop
